@@ -65,7 +65,7 @@ ANALYSIS = {"CheckerPass", "ShapeInferencePass"}
 def plan(tier: str) -> dict:
     quick = tier == "quick"
     floors = {f"applied:{n}": (6 if quick else 300) for n in PASS_FACTORIES if n != "CheckerPass"}
-    floors["applied:CheckerPass"] = 0  # structural models rarely satisfy the ONNX checker; its raising path is what is judged
+    floors["applied:CheckerPass"] = 3 if quick else 150
     floors.update({"flag_false_judged": 300 if quick else 10000, "fixpoint_runs": 200 if quick else 8000,
                    "analysis_snapshots": 40 if quick else 1500, "faults_injected": 20 if quick else 800})
     return {"cases": 2600 if quick else 60000, "shards": 16, "budget_s": 40 if quick else 560,
@@ -173,8 +173,24 @@ def bait(model: ir.Model, gen: gen_ir.IRGen) -> None:
     return False
 
 
+class _ExecFeatures:
+    """stand-in for IRGen when the model comes from gen_exec (evidence samples read .features)"""
+
+    def __init__(self, features):
+        self.features = set(features)
+
+
 def build(ctx, case):
     rng = ctx.rng(case)
+    if rng.random() < 0.3:
+        # checker-valid, executable models (vfpy/gen_exec.py): the ONNX checker and shape inference
+        # succeed on these, so the success paths of the analysis passes are exercised as well
+        from vfpy import gen_exec
+
+        model, info = gen_exec.gen_model(rng, size=rng.choice([4, 8, 12]))
+        ctx.count("models_from_gen_exec")
+        return model, _ExecFeatures(info.get("features", ())), False
+    ctx.count("models_from_gen_ir")
     gen = gen_ir.IRGen(rng, max_depth=rng.choice([0, 1, 2]), ir_versions=(9, 10, 11))
     model = gen.model()
     gen_ir.uniquify_names(model)
